@@ -146,3 +146,87 @@ func ForwardLowerBound(fn *ssa.Function, entry int64, implied func(cond ssa.Valu
 	}
 	return in
 }
+
+// MapWritesThrough returns the map updates (m[k] = v, delete(m, k)) in fn, its closures and the module functions it
+// hands the value to, whose map may be the very map value `v` of fn (followed through phis, type changes, cells that
+// closures capture, and parameters). depth bounds the calls entered.
+func MapWritesThrough(v ssa.Value, depth int) []ssa.Instruction {
+	var out []ssa.Instruction
+	seenV := map[ssa.Value]bool{}
+	var track func(v ssa.Value, depth int)
+	track = func(v ssa.Value, depth int) {
+		if v == nil || seenV[v] {
+			return
+		}
+		seenV[v] = true
+		refs := v.Referrers()
+		if refs == nil {
+			return
+		}
+		for _, ref := range *refs {
+			switch x := ref.(type) {
+			case *ssa.MapUpdate:
+				if x.Map == v {
+					out = append(out, x)
+				}
+			case *ssa.Phi:
+				track(x, depth)
+			case *ssa.ChangeType:
+				track(x, depth)
+			case *ssa.MakeInterface:
+				// not followed
+			case *ssa.Store:
+				if x.Val != v {
+					continue
+				}
+				if al, ok := x.Addr.(*ssa.Alloc); ok {
+					// every load of the cell, here and in closures that capture it
+					trackCell(al, depth, track)
+				}
+			case ssa.CallInstruction:
+				c := x.Common()
+				if b, ok := c.Value.(*ssa.Builtin); ok {
+					if b.Name() == "delete" && len(c.Args) > 0 && c.Args[0] == v {
+						out = append(out, x)
+					}
+					continue
+				}
+				callee := c.StaticCallee()
+				if callee == nil || len(callee.Blocks) == 0 || depth <= 0 {
+					continue
+				}
+				for i, a := range c.Args {
+					if a == v && i < len(callee.Params) {
+						track(callee.Params[i], depth-1)
+					}
+				}
+			}
+		}
+	}
+	track(v, depth)
+	return out
+}
+
+func trackCell(al *ssa.Alloc, depth int, track func(ssa.Value, int)) {
+	for _, ref := range *al.Referrers() {
+		switch x := ref.(type) {
+		case *ssa.UnOp:
+			track(x, depth)
+		case *ssa.MakeClosure:
+			fn, ok := x.Fn.(*ssa.Function)
+			if !ok {
+				continue
+			}
+			for i, b := range x.Bindings {
+				if b == ssa.Value(al) && i < len(fn.FreeVars) {
+					fv := fn.FreeVars[i]
+					for _, r2 := range *fv.Referrers() {
+						if ld, ok := r2.(*ssa.UnOp); ok {
+							track(ld, depth)
+						}
+					}
+				}
+			}
+		}
+	}
+}
